@@ -28,8 +28,10 @@ func newLinearInterpolator(seq Sequence) linearInterpolator {
 func (l linearInterpolator) interpolate(frac float64) Point {
 	frac = math.Max(0, math.Min(1, frac))
 	idx := sort.SearchFloat64s(l.cumulative, frac*l.total)
-	if idx == l.seq.Length() {
-		return l.seq.Get(idx - 1).AsPoint()
+	if idx == len(l.cumulative) {
+		// The search found no segment. This happens when the sequence has
+		// a single point (no segments at all), or when frac is NaN.
+		return l.seq.Get(idx).AsPoint()
 	}
 
 	p0 := l.seq.Get(idx + 0)
